@@ -143,6 +143,9 @@ func greedySource(name string) bool {
 
 func runC09(r *vhlib.Run) {
 	rng := r.Rng
+	// lifecycle histories of flate.Reader (Read / Close / Reset in any order over scripted sources)
+	// against the implementation-level model, per call (Flate/ImplLife.v)
+	wfllife(r)
 	nValid, maxPlain := 14, 1500
 	if !r.Quick() {
 		nValid, maxPlain = 60, 30000
